@@ -36,7 +36,7 @@
 #define MAXEV 16384
 
 enum { ST_UNUSED, ST_RUN, ST_BLOCK, ST_FIN, ST_FROZEN, ST_GONE };
-enum { BK_NONE, BK_MUTEX, BK_FUTEX, BK_JOIN, BK_GATE };
+enum { BK_NONE, BK_MUTEX, BK_FUTEX, BK_JOIN, BK_GATE, BK_COND };
 
 struct sbent { uintptr_t addr; int size; uint64_t val; int hold; };
 
@@ -99,6 +99,9 @@ extern int __real_pthread_mutex_lock(pthread_mutex_t *);
 extern int __real_pthread_mutex_trylock(pthread_mutex_t *);
 extern int __real_pthread_mutex_unlock(pthread_mutex_t *);
 extern long __real_syscall(long, ...);
+extern int __real_pthread_cond_wait(pthread_cond_t *, pthread_mutex_t *);
+extern int __real_pthread_cond_signal(pthread_cond_t *);
+extern int __real_pthread_cond_broadcast(pthread_cond_t *);
 extern int __real_poll(struct pollfd *, nfds_t, int);
 extern pid_t __real_fork(void);
 extern void *__real_malloc(size_t);
@@ -161,7 +164,7 @@ static void describe_threads(char *buf, size_t n)
 	for (int i = 0; i < nT && o + 40 < n; i++)
 		o += snprintf(buf + o, n - o, "E%d%s:%s%s ", i, T[i].daemon ? "d" : "",
 			T[i].state == ST_RUN ? "run" : T[i].state == ST_FIN ? "fin" : T[i].state == ST_FROZEN ? "frz" : T[i].state == ST_GONE ? "gone" :
-			T[i].bkind == BK_MUTEX ? "mutex" : T[i].bkind == BK_FUTEX ? "futex" : T[i].bkind == BK_JOIN ? "join" : "gate", "");
+			T[i].bkind == BK_MUTEX ? "mutex" : T[i].bkind == BK_FUTEX ? "futex" : T[i].bkind == BK_JOIN ? "join" : T[i].bkind == BK_COND ? "cond" : "gate", "");
 }
 
 /* ---- API: case access ---- */
@@ -438,7 +441,7 @@ static void sig_tramp(int signo)
 static void raise_signals(struct thr *me)
 {
 	for (int i = 0; i < nsig; i++)
-		if (tmatch(me, sigs[i].tid) && sigs[i].k == me->lsteps) {
+		if (tmatch(me, sigs[i].tid) && sigs[i].k == me->lsteps && me->cur_op >= 0) {	/* only while the thread runs its program, not during thread start/exit */
 			in_rt = 1; sb_drain(me); in_rt = 0;	/* interrupt delivery is serialising */
 			pthread_kill(pthread_self(), SIGUSR1);
 		}
@@ -568,11 +571,11 @@ void __tsan_release(void *a) { (void)a; }
 
 /* ---- faults ---- */
 static long nth_call[8];
-enum { FC_FUTEX_WAIT, FC_FUTEX, FC_MREMAP, FC_PCREATE };
+enum { FC_FUTEX_WAIT, FC_FUTEX, FC_MREMAP, FC_PCREATE, FC_WAIT_ANY };
 static int fault_hit(const char *kind, long k)
 {
 	for (int i = 0; i < nfault; i++)
-		if (!strcmp(faults[i].kind, kind) && (faults[i].k == k || faults[i].k == -1)) { flags |= 1ull << DSF_FAULT_HIT; return 1; }
+		if (!strcmp(faults[i].kind, kind) && (faults[i].k == -1 || (k >= 0 && faults[i].k == k))) { flags |= 1ull << DSF_FAULT_HIT; return 1; }
 	return 0;
 }
 
@@ -610,6 +613,37 @@ int __wrap_pthread_mutex_unlock(pthread_mutex_t *m)
 	return r;
 }
 
+int __wrap_pthread_cond_wait(pthread_cond_t *c, pthread_mutex_t *m)
+{
+	struct thr *me = self;
+	if (!active || !me || in_rt) return __real_pthread_cond_wait(c, m);
+	sched_point();
+	in_rt = 1; sb_drain(me);
+	__real_pthread_mutex_unlock(m);
+	wake_blocked(BK_MUTEX, m, MAXT);
+	if (solo_on && me->scen_idx == freeze_solo) solo_yields++;
+	block_on(BK_COND, c);
+	while (__real_pthread_mutex_trylock(m) != 0) block_on(BK_MUTEX, m);
+	in_rt = 0;
+	return 0;
+}
+int __wrap_pthread_cond_signal(pthread_cond_t *c)
+{
+	struct thr *me = self;
+	if (!active || !me || in_rt) return __real_pthread_cond_signal(c);
+	sched_point();
+	in_rt = 1; sb_drain(me); wake_blocked(BK_COND, c, 1); in_rt = 0;
+	return 0;
+}
+int __wrap_pthread_cond_broadcast(pthread_cond_t *c)
+{
+	struct thr *me = self;
+	if (!active || !me || in_rt) return __real_pthread_cond_broadcast(c);
+	sched_point();
+	in_rt = 1; sb_drain(me); wake_blocked(BK_COND, c, MAXT); in_rt = 0;
+	return 0;
+}
+
 long __wrap_syscall(long nr, ...)
 {
 	va_list ap; long a[6];
@@ -628,14 +662,21 @@ long __wrap_syscall(long nr, ...)
 		in_rt = 1; sb_drain(me);
 		long ret = 0;
 		long kf = nth_call[FC_FUTEX]++;
-		if (fault_hit("futex_enosys", kf)) { errno = ENOSYS; in_rt = 0; return -1; }
+		/* ENOSYS: either the system call does not exist at all (every call), or the documented spurious ENOSYS of FUTEX_WAIT (mips/parisc signal-restart bug) */
+		(void)kf;
+		if (fault_hit("futex_enosys", -2)) { errno = ENOSYS; in_rt = 0; return -1; }
 		if (op == FUTEX_WAIT) {
 			if (a[3]) die("badcase", "futex wait with timeout not modelled");
+			if (fault_hit("futex_wait_enosys", nth_call[FC_WAIT_ANY]++)) { errno = ENOSYS; in_rt = 0; return -1; }
 			if (__atomic_load_n(uaddr, __ATOMIC_SEQ_CST) != val) { errno = EAGAIN; ret = -1; }
 			else {
 				long k = nth_call[FC_FUTEX_WAIT]++;
 				if (fault_hit("futex_spurious", k)) ret = 0;
-				else if (fault_hit("futex_eintr", k)) { errno = EINTR; ret = -1; }
+				else if (fault_hit("futex_eintr", k)) {
+					/* EINTR is what a signal handler interrupting the wait produces: run the scenario's handler (if any) first */
+					if (sig_fn && me->cur_op >= 0) { in_rt = 0; pthread_kill(pthread_self(), SIGUSR1); in_rt = 1; }
+					errno = EINTR; ret = -1;
+				}
 				else {
 					flags |= 1ull << DSF_FUTEX_SLEEP;
 					if (solo_on && me->scen_idx == freeze_solo) solo_yields++;
